@@ -1369,6 +1369,14 @@ impl Server {
             "in_copy" => self.in_copy_mode, "data_avail" => self.data_available,
             "dirty_set" => self.cleanup_state.needs_cleanup_set,
             "dirty_prep" => self.cleanup_state.needs_cleanup_prepare);
+        // A statement sent into an open COPY only aborts the COPY and is not executed itself,
+        // so the clean-up below would not take effect: such a connection is not reused.
+        if self.in_copy_mode() {
+            warn!(target: "pgcat::server::cleanup", "Server returned while still in copy-mode, closing it");
+            self.mark_bad("returned to the pool while in COPY mode");
+            return Ok(());
+        }
+
         if self.in_transaction() {
             warn!(target: "pgcat::server::cleanup", "Server returned while still in transaction, rolling back transaction");
             self.query("ROLLBACK").await?;
@@ -1401,10 +1409,6 @@ impl Server {
 
         crate::vtrace!("cleanup_end", "spid" => self.process_id, "in_tx" => self.in_transaction,
             "in_copy" => self.in_copy_mode);
-        if self.in_copy_mode() {
-            warn!(target: "pgcat::server::cleanup", "Server returned while still in copy-mode");
-        }
-
         Ok(())
     }
 
